@@ -4,7 +4,7 @@ from common import *
 import build, certs, engine, probes, gen, cap as capmod
 import check_engine as ce
 
-CERT_NAMES = ['dfa_ok', 'sim_ok', 'exact_ok', 'wf_graph']
+CERT_NAMES = ['dfa_ok', 'sim_ok', 'exact_ok', 'wf_graph', 'prompt_ok']
 
 
 def framework(res, theorems):
@@ -191,6 +191,132 @@ def check_C03(tier):
                            {'tiling', 'spec-tiling', 'panic'}, {'tiling'},
                            RULE_ENGINE % ('dfa_ok (no empty match)+sim_ok+exact_ok', 'span sequences: strictly increasing, contiguous modulo skips, final None with span len..len, None absorbing (3 further calls)'),
                            ASSUME_ENGINE)
+
+
+def check_C07(tier):
+    res = Result('C07', tier)
+    framework(res, ['C07_next_prefix_safe', 'C07_next_prefix_none'])
+    fss = ['tc', 'sm']
+    sets = ce.compiled_sets(tier, fss)
+    failing, drv = cert_stage(res, tier, ['dfa_ok', 'sim_ok', 'exact_ok', 'prompt_ok'], [], 'C07', curated_caps(sets, 'tc'))
+    for c, name in failing[:6]:
+        res.violation(None, 'certificate %s fails for %s' % (name, c.id),
+                      dict(definition=c.source, definition_id=c.id, no_longer_checks='certificate %s (promptness / exactness of partial lexing) for %s' % (name, c.id)),
+                      found_input=False)
+    viol = ce.run_k2_partial(res, sets, fss, tier, drv)
+    enums_by_label = {label: enums for label, h, enums in sets}
+    seen = 0
+    for label, fs, en, p, k, what, raw, found in viol:
+        seen += 1
+        if seen > 6:
+            break
+        src = ce.enum_source(enums_by_label[label], en)
+        c = dict(enums_by_label[label])[en][1]
+        key = None
+        replay = dict(definition=src, enum=en, featureset=fs, input_hex=p.hex(), input=repr(p), split=k, observed=raw)
+        if not found:
+            replay['no_longer_checks'] = 'correspondence K2 (partial mode) for %s' % en
+        res.violation(key, '%s/%s input %r split %d: %s' % (en, fs, p, k, what), replay, found_input=found)
+    res.oblige(not viol)
+    res.cov['rule'] = ('for every compiled definition, generated inputs up to a length bound and EVERY split point (char boundaries for str): real partial lexer on the prefix '
+                       'vs real one-shot lexer on the whole input (items committed before None, empty span at None, position of None) and vs the model; '
+                       'promptness: certificate prompt_ok on every paired state of every corpus definition')
+    res.assumptions += ASSUME_ENGINE + ['promptness is decided by the certificate prompt_ok (checker in Coq, evaluated per definition); its Prop-level reading (two extensions that differ) is argued in DESIGN.md, not yet a Coq theorem',
+                                         'callbacks that bump beyond the prefix panic in the real code; the theorem quantifies over oracles and is vacuous for such calls']
+    return res.finish('./vcheck C07 --tier ' + tier)
+
+
+def check_C06(tier):
+    res = Result('C06', tier)
+    framework(res, ['C06_opt_is_ref', 'C06_generators_agree'])
+    fss = ['tc', 'sm']
+    sets = ce.compiled_sets(tier, fss)
+    failing, drv = cert_stage(res, tier, ['wf_graph'], [], 'C06', curated_caps(sets, 'tc'))
+    for c, name in failing[:6]:
+        res.violation(None, 'certificate %s fails for %s' % (name, c.id),
+                      dict(definition=c.source, definition_id=c.id, no_longer_checks='certificate wf_graph (hypothesis of C06_opt_is_ref) for %s' % c.id), found_input=False)
+    # both generators against each other and against the model, ordinary and partial mode
+    mism = ce.run_k2(res, sets, fss, tier, modes=(0, 1), drv=drv)
+    enums_by_label = {label: enums for label, h, enums in sets}
+    by_probe = {}
+    for m in mism:
+        by_probe.setdefault((m[0], m[2], m[3], m[4]), {})[m[1]] = m
+    n = 0
+    for (label, en, mode, p), d in by_probe.items():
+        # a probe is a C06 violation when the two generators differ from each other
+        raws = {fs: d[fs][6] for fs in d}
+        if len(d) == 2 and raws['tc'] == raws['sm']:
+            continue          # both differ from the model in the same way: not a generator disagreement
+        n += 1
+        if n > 6:
+            continue
+        src = ce.enum_source(enums_by_label[label], en)
+        res.violation(None, '%s on %r (partial=%s): generators disagree or depart from their common model: %s' % (en, p, bool(mode & 1), {fs: sorted(d[fs][5]) for fs in d}),
+                      dict(definition=src, enum=en, input_hex=p.hex(), input=repr(p), partial=bool(mode & 1), observed=raws))
+    res.oblige(n == 0)
+    # structural scan of the state-machine output: transitions are `state = ..; continue;` only
+    files = build.repo_corpus_files() + [os.path.join(VERIF, 'corpus', 'engine', f) for f in sorted(os.listdir(os.path.join(VERIF, 'corpus', 'engine')))]
+    smcaps = build.capture_files(files, 'c06scan', sm=True, gen=True)
+    scanned = 0
+    import re as _re
+    for c in smcaps:
+        if not ce.usable(c) or not os.path.exists(c.gen_path):
+            continue
+        txt = open(c.gen_path).read()
+        scanned += 1
+        bad = None
+        if _re.search(r'fn state\d+', txt):
+            bad = 'state-machine output defines per-state functions'
+        elif 'loop {' not in txt or 'continue ;' not in txt:
+            bad = 'state-machine output has no loop / continue'
+        elif _re.search(r'return state\d+ \(', txt):
+            bad = 'state-machine output calls a state function'
+        if bad:
+            res.violation(None, '%s: %s' % (c.id, bad), dict(definition=c.source, no_longer_checks='structural scan of state_machine_codegen output'), found_input=False)
+        res.oblige(bad is None)
+    res.count('state_machine_outputs_scanned', scanned)
+    # stack: long token / many skips on a 128 KiB stack with the state-machine generator
+    exe_sm = dict(sets[0][1])['sm'][0]
+    reps = 1_000_000 if tier == 'quick' else 4_000_000
+    for en, unit in (('SelfLoops', b'a'), ('SelfLoops', b' '), ('KwIdent', b' '), ('KwIdent', b'fn ')):
+        r = sh([exe_sm, 'stack', en, '128', unit.hex(), str(reps)], check=False, timeout=600)
+        ok = r.returncode == 0 and 'STACK true' in r.stdout and ('end=%d' % (len(unit) * reps)) in r.stdout
+        res.oblige(ok)
+        res.count('stack_runs')
+        if not ok:
+            res.violation(None, 'state-machine lexer of %s did not complete %d x %r on a 128 KiB stack (exit %s)' % (en, reps, unit, r.returncode),
+                          dict(enum=en, unit_hex=unit.hex(), repeat=reps, stack_kib=128, output=r.stdout[-300:]))
+    res.cov['rule'] = RULE_ENGINE % ('wf_graph', 'complete output (results, spans, final span) of the two generators against each other and the model, in ordinary and partial mode; state-machine output scanned for per-state functions; long inputs on a 128 KiB stack')
+    res.assumptions += ASSUME_ENGINE + ['stack usage is a runtime quantity: supported by the structural scan and the small-stack runs, not by a theorem',
+                                         'callback invocation order is compared through results (callbacks of the compiled corpus are pure functions of the slice)']
+    return res.finish('./vcheck C06 --tier ' + tier)
+
+
+def check_C20(tier):
+    res = Result('C20', tier)
+    framework(res, ['C20_reads_monotone_linear', 'C06_opt_is_ref'])
+    fss = ['tc', 'sm']
+    sets = ce.compiled_sets(tier, fss)
+    drv = build.extraction_build()
+    mism = ce.run_k3(res, sets, fss, tier, modes=(0, 1), drv=drv)
+    enums_by_label = {label: enums for label, h, enums in sets}
+    n = 0
+    for label, fs, en, mode, p, tags, raw, model in mism:
+        n += 1
+        if n > 6:
+            continue
+        real_bad = any(t.startswith('real-') for t in tags) or 'panic' in tags
+        src = ce.enum_source(enums_by_label[label], en)
+        replay = dict(definition=src, enum=en, featureset=fs, partial=bool(mode & 1), input_hex=p.hex(), input=repr(p), observed_trace=raw, model_trace=model, differs=sorted(tags))
+        if not real_bad:
+            replay['no_longer_checks'] = 'correspondence K3 (read trace of the compiled lexer vs attempt_opt 8) for %s' % en
+        res.violation(None, '%s/%s on %r: %s' % (en, fs, p, ','.join(sorted(tags))), replay, found_input=real_bad)
+    res.oblige(n == 0)
+    res.cov['rule'] = ('read trace (hook H3) of every attempt of every probe (graph-driven, self-loop run lengths around the 8-byte unroll, random), ordinary and partial mode, '
+                       'both generators: exact equality with the model log of attempt_opt 8; and directly on the real trace: offsets non-decreasing, first read at the attempt start, '
+                       '#reads <= 3*examined+4')
+    res.assumptions += ASSUME_ENGINE + ['all source access of generated code goes through Lexer::read (the hook is inside it); callbacks may read the source through slice() and are outside the property']
+    return res.finish('./vcheck C20 --tier ' + tier)
 
 
 def setup():
